@@ -353,8 +353,9 @@ def _imports(ctx):
     import_rules(ctx, "C05", {"C05.b", "C05.c", "C05.d", "C05.e"}, "C07.g", "imported from C05 (the histogram storage the exporter drains): a detached block is read only after its in-flight writes are waited for, blocks are linked before they are published, claims are fenced before a block is read, one clearer wins the detach — otherwise a sample recorded concurrently with render()/run_upkeep() is counted zero times", floor=6)
     import_rules(ctx, "C04", {"C04.b"}, "C07.h", "imported from C04 (the counter/gauge storage whose value is rendered): counter increment/absolute and gauge updates are single atomic read-modify-write operations — otherwise the rendered total is not the sum of increments / the highest absolute value", floor=5)
     import_rules(ctx, "C06", {"C06.b", "C06.c", "C06.e"}, "C07.i", "imported from C06 (the registry the recorder registers into and render() lists): one hash/shard/key per lookup, check-and-insert in one critical section, every constructed Key carries the hash of its own (name, labels) — otherwise updates through equal keys land in two storages of which render() reports one", floor=12)
+    import_rules(ctx, "C15", {"C15.a"}, "C07.l", "imported from C15 (storage::Histogram, what every bucketed series is aggregated into): every sample of a batch enters sum and count, the bound comparison and the cumulative pass are those of single recording — otherwise _sum / _count / bucket counts are not the recorded ones", floor=8)
     import_rules(ctx, "C12", {"C12.b"}, "C07.k", "imported from C12 (every counter/gauge/histogram the recorder hands out is a Generational wrapper): each wrapper method forwards the same-named operation with its arguments and marks the metric as updated after the update — otherwise absolute() adds, or an updated series is expired, and the output is not what was recorded", floor=11)
-    import_rules(ctx, "C03", {"C03.a", "C03.c"}, "C07.j", "imported from C03 (Key hash/equality contract behind the registry lookup): same canonical form in hasher, == and cmp; lazily memoised hash published before its flag — otherwise equal keys are split over two series", floor=7)
+    import_rules(ctx, "C03", {"C03.a", "C03.c", "C03.d"}, "C07.j", "imported from C03 (Key hash/equality contract behind the registry lookup): same canonical form in hasher, == and cmp; lazily memoised hash published before its flag — otherwise equal keys are split over two series", floor=7)
 
 
 def run_config(ctx):
